@@ -3,7 +3,11 @@
 // Package verifhook provides yield points for verification harnesses.
 package verifhook
 
-import "sync/atomic"
+import (
+	"strconv"
+	"sync/atomic"
+	"unsafe"
+)
 
 var hook atomic.Value // *func(string)
 
@@ -15,4 +19,9 @@ func Yield(point string) {
 	if p, _ := hook.Load().(*func(string)); p != nil && *p != nil {
 		(*p)(point)
 	}
+}
+
+// YieldP is Yield for a point that concerns one object: the hook sees "point@address".
+func YieldP(point string, p unsafe.Pointer) {
+	Yield(point + "@" + strconv.FormatUint(uint64(uintptr(p)), 16))
 }
